@@ -249,20 +249,77 @@ class Dispatch(Family):
 # lookup_class_with_patches vs the model chase
 # ------------------------------------------------------------------------------------------
 
+import types  # noqa: E402
+import importlib.util  # noqa: E402
+
+
+def _patch_names():
+    out = []
+    for k, v in S.PATH_PATCHES.items():
+        for n in (k, v):
+            if n not in out:
+                out.append(n)
+    return out
+
+
+def _importable(names):
+    """the environment: which names `lookup_class` (un-patched) finds right now"""
+    ok = []
+    for n in names:
+        try:
+            lookup_class(n)
+            ok.append(n)
+        except ValueError:
+            pass
+    return ok
+
+
+def _install_stubs():
+    """Simulate an environment in which the external packages the table points to (glue_qt, ...) are
+    installed: for every patch target outside `glue.` whose top-level package does not exist here, a
+    stub module chain is put into sys.modules and the target attribute is a fresh class.
+    -> names of the modules added"""
+    added = []
+    for t in _patch_names():
+        if t.startswith("glue.") or "." not in t:
+            continue
+        mod, attr = t.rsplit(".", 1)
+        parts = mod.split(".")
+        top = parts[0]
+        if top not in added and (top in sys.modules or importlib.util.find_spec(top) is not None):
+            continue  # really installed: leave it alone
+        for i in range(1, len(parts) + 1):
+            name = ".".join(parts[:i])
+            if name not in sys.modules:
+                m = types.ModuleType(name)
+                m.__path__ = []
+                sys.modules[name] = m
+                added.append(name)
+                if i > 1:
+                    setattr(sys.modules[".".join(parts[:i - 1])], parts[i - 1], m)
+        if not hasattr(sys.modules[mod], attr):
+            setattr(sys.modules[mod], attr, type(attr, (), {"__module__": mod}))
+    return added
+
+
+def _remove_stubs(added):
+    for name in added:
+        sys.modules.pop(name, None)
+
+
 class Patch(Family):
+    """The real `lookup_class_with_patches` under two environments: the one of this machine, and one in
+    which the external packages the table redirects to are importable (stub modules in sys.modules).
+    Observed: the names handed to `lookup_class` (recording spy around the module attribute), whether
+    a ValueError came out, and under which name the returned object was found."""
     name = "patch"
     exhaustive = True
     max_jobs = 1
-    case_timeout = 10.0
+    case_timeout = 20.0
+    _env = {}
 
     def cases(self, tier, rng):
-        P = S.PATH_PATCHES
-        seen = []
-        for k, v in P.items():
-            for n in (k, v):
-                if n not in seen:
-                    seen.append(n)
-        for n in seen:
+        for n in _patch_names():
             yield n
         for n in ["glue.core.data.Data", "glue.core.subset.AndState", "glue.core.roi.RectangularROI",
                   "glue.core.component.Component", "builtins.dict", "numpy.ndarray",
@@ -270,25 +327,51 @@ class Patch(Family):
                   "glue.core.data.NoSuchClass"]:
             yield n
 
-    def run_impl(self, case):
+    def _situation(self, case, tag):
+        if tag not in Patch._env:
+            Patch._env[tag] = _importable(_patch_names())
+        env = list(Patch._env[tag])
+        if case not in env and _importable([case]):
+            env.append(case)
         calls = []
         real = S.lookup_class
 
         def spy(ref):
-            calls.append(ref)
-            return real(ref)
+            try:
+                obj = real(ref)
+            except ValueError:
+                calls.append([ref, False])
+                raise
+            calls.append([ref, True])
+            return obj
         S.lookup_class = spy
         try:
             try:
-                S.lookup_class_with_patches(case)
+                obj = S.lookup_class_with_patches(case)
                 status = "ok"
             except ValueError:
+                obj = None
                 status = "value-error"
         finally:
             S.lookup_class = real
-        if len(calls) != 1:
-            return ["no-single-lookup", status]
-        return [calls[0], status]
+        result = None
+        if status == "ok":
+            # the name under which the returned object was found (identity with what lookup_class gives)
+            for ref, ok in calls:
+                if ok and real(ref) is obj:
+                    result = ref
+            if result is None:
+                result = "not-from-lookup-class"
+        return [env, [c[0] for c in calls], status, result]
+
+    def run_impl(self, case):
+        a = self._situation(case, "here")
+        added = _install_stubs()
+        try:
+            b = self._situation(case, "stubbed")
+        finally:
+            _remove_stubs(added)
+        return [a, b]
 
     def nontrivial(self, case, po):
         return case in S.PATH_PATCHES
@@ -297,6 +380,8 @@ class Patch(Family):
         br = res.get("br", "")
         if br == "captured-listed":
             return {"construct": "captured-live-class-listed-in-F12"}
+        if br == "captured-unloadable":
+            return {"construct": "captured-live-class-unloadable", "key": case}
         if br == "captured-unlisted":
             return {"construct": "captured-live-class-NOT-listed", "key": case}
         return {"construct": str(br)}
@@ -1258,6 +1343,7 @@ PROP = Property(
         "C12.versioned_inv", "C12.versioned_set", "C12.versioned_never_overwritten",
         "C12.versioned_refines_spec", "C12.save_uses_newest", "C12.orig_set_violates_inv",
         "C12.chase_terminates_of_check", "C12.chase_acyclic_of_check", "C12.chase_deterministic",
+        "C12.lookup_fallback_spec", "C12.lookup_with_patches_total", "C12.captured_live_class_still_loads",
         "C12.patches_terminate", "C12.patches_acyclic", "C12.patches_fixpoint_not_key",
         "C12.patch_keys_unique", "C12.patch_targets_importable", "C12.no_capture_partial",
         "C12.no_capture_witness_F12", "C12.registry_consecutive", "C12.saver_loader_versions_match",
@@ -1267,13 +1353,14 @@ PROP = Property(
     ],
     families=[Tables(), Dispatch(), SaveNewest(), Patch(), VDict(), RoundTrip(), RoundTripOther()],
     pre_build=pre_build,
-    partial_note="no_capture_partial: no rename-table key names a live, written, concrete class EXCEPT the four names of known finding F12 (knownCaptured); the full statement is false on the pinned tree (witness no_capture_witness_F12). All other theorems are full.",
+    partial_note="no_capture_partial: no rename-table key names a live, written, concrete class EXCEPT the four names of known finding F12 (knownCaptured); the full statement is false on the pinned tree (witness no_capture_witness_F12). With fix F12b the captured classes still load as themselves whenever their new location cannot be imported (captured_live_class_still_loads); when it can, their records are redirected - that is the capture F12 keeps reporting. All other theorems are full.",
     trusted_base=[
         "harness/translate/c12.py reads the registries, PATH_PATCHES and the class table off the imported package and interns names (interning and the inside-'glue.' flags are re-checked by the compiled driver on every run, the live tables of the harness process are compared with the generated ones)",
         "json, base64, np.save/np.load are trusted codecs",
+        "family patch: importability (`lookup_class(name)` un-patched) is an input read off the environment; the second environment is simulated by stub modules in sys.modules for the external packages (glue_qt, ...) the rename table points to",
         "harness/props/c12_linkfns.py: importable user link functions and a BaseMultiLink sub-class used by the generated collections",
     ],
     assumptions=["old-format records are produced by this tree's own version-v savers (dispatch.get_version(type, v)), as the property prescribes",
                  "generated links give every component at most one producing link (forward or inverse), so that what a dataset reads through the link web does not depend on the discovery order of the link manager"],
-    rule="VersionedDict: every op sequence of length <= 3 (quick) / 4 (thorough) over 2 keys x versions {(-1),0,1,2,3,bad} + queries, each followed by a full probe of the state, plus seeded random histories of length 4-16 over 3 keys; tables/dispatch/patch: every row of the live registries and every name of the rename table; rt: documents written record by record with independently chosen registered versions and loaded by one GlueUnSerializer: (1) 4 fixed collections + 5 link-zoo collections x all 20 (Data version, DataCollection version) pairs, (2) two Data records x every pair of Data versions x every collection version x 3 request orders, two collection records x every pair of collection versions x 3 request orders, (3) generated collections (1-3 datasets, arithmetic / user-function derived components, selections, styles, meta, up to 4 links of the zoo [single-input, inverse, multi-input foreign, multi-input mixed own/foreign, LinkSame, LinkTwoWay, PairLink, MultiLink, LinkAligned, coordinate components as inputs], key join) x version pairs + random per-dataset version assignments with random request orders + two-collection documents; rt1: 18 other registered types x registered versions; non-trivial = at least one set / a multi-version type / a table key / some record of an old (non-newest) version",
+    rule="VersionedDict: every op sequence of length <= 3 (quick) / 4 (thorough) over 2 keys x versions {(-1),0,1,2,3,bad} + queries, each followed by a full probe of the state, plus seeded random histories of length 4-16 over 3 keys; tables/dispatch/patch: every row of the live registries and every name of the rename table (patch: each name through the real lookup_class_with_patches in this machine's environment and in one where the external targets are importable); rt: documents written record by record with independently chosen registered versions and loaded by one GlueUnSerializer: (1) 4 fixed collections + 5 link-zoo collections x all 20 (Data version, DataCollection version) pairs, (2) two Data records x every pair of Data versions x every collection version x 3 request orders, two collection records x every pair of collection versions x 3 request orders, (3) generated collections (1-3 datasets, arithmetic / user-function derived components, selections, styles, meta, up to 4 links of the zoo [single-input, inverse, multi-input foreign, multi-input mixed own/foreign, LinkSame, LinkTwoWay, PairLink, MultiLink, LinkAligned, coordinate components as inputs], key join) x version pairs + random per-dataset version assignments with random request orders + two-collection documents; rt1: 18 other registered types x registered versions; non-trivial = at least one set / a multi-version type / a table key / some record of an old (non-newest) version",
 )
